@@ -29,6 +29,13 @@ type Script func(s *Server, sc *uasc.SecureChannel, req ua.Request) ua.Response
 // NoAnswer, returned by a Script, means: send nothing for this request.
 var NoAnswer ua.Response = &ua.ServiceFault{}
 
+// RawMessage, returned by a Script, sends Body — any registered service
+// structure, e.g. a request — under the request id instead of a response.
+type RawMessage struct {
+	*ua.ServiceFault
+	Body interface{}
+}
+
 // Server is one listening scripted server.
 type Server struct {
 	Cert   []byte
@@ -161,6 +168,12 @@ func (s *Server) serve(ctx context.Context, c *uacp.Conn) {
 			resp = Default(s, sc, req)
 		}
 		if resp == nil {
+			continue
+		}
+		if raw, ok := resp.(*RawMessage); ok {
+			if err := sc.SendMsgWithContext(ctx, nil, msg.RequestID, raw.Body); err != nil {
+				return
+			}
 			continue
 		}
 		if err := sc.SendResponseWithContext(ctx, msg.RequestID, resp); err != nil {
